@@ -72,6 +72,13 @@ def _first_unused_global_sort_index() -> int:
     return _global_event_counter.__next__()
 
 
+def _raise_global_sort_index_floor(floor: int) -> None:
+    """Make the global counter continue at or above ``floor``."""
+    global _global_event_counter
+    if _global_event_counter.__next__() < floor:
+        _global_event_counter = count(floor)
+
+
 def reset_event_counter() -> None:
     """Reset the global event counter to zero.
 
